@@ -71,6 +71,114 @@ func decStream(bs []byte) string {
 	})
 }
 
+// errKind names the sentinel errors of the Stream (the interface{} path returns them unwrapped).
+func errKind(err error) string {
+	switch err {
+	case io.EOF:
+		return "eof"
+	case io.ErrUnexpectedEOF:
+		return "unexpectedEOF"
+	case rlp.ErrValueTooLarge:
+		return "valueTooLarge"
+	case rlp.ErrElemTooLarge:
+		return "elemTooLarge"
+	case rlp.ErrCanonSize:
+		return "canonSize"
+	case rlp.ErrCanonInt:
+		return "canonInt"
+	case rlp.ErrExpectedString:
+		return "expectedString"
+	case rlp.ErrExpectedList:
+		return "expectedList"
+	case rlp.ErrMoreThanOneValue:
+		return "moreThanOneValue"
+	}
+	return "other(" + strings.ReplaceAll(err.Error(), " ", "_") + ")"
+}
+
+// sdecTokens: both entry points with the error kind, for the Go-shaped Stream machine of the model:
+//   <ok|err> S=<tok> B=<tok>, tok = ok:<item> | err:<kind>; a failing second phase of the Stream entry point is err:more.
+func sdecTokens(bs []byte) string {
+	return hx.Safe(func() string {
+		st := rlp.NewStream(bytes.NewReader(bs), uint64(len(bs)))
+		var v interface{}
+		tokS := ""
+		if err := st.Decode(&v); err != nil {
+			tokS = "err:" + errKind(err)
+		} else {
+			var w interface{}
+			if err := st.Decode(&w); err != io.EOF {
+				tokS = "err:more"
+			} else {
+				tokS = "ok:" + render(v)
+			}
+		}
+		var u interface{}
+		tokB := ""
+		if err := rlp.DecodeBytes(bs, &u); err != nil {
+			tokB = "err:" + errKind(err)
+		} else {
+			tokB = "ok:" + render(u)
+		}
+		verdict := "ok"
+		if strings.HasPrefix(tokS, "err") {
+			verdict = "err" // first word = accept/reject, so rejected inputs count as trivial in the evidence
+		}
+		return verdict + " S=" + tokS + " B=" + tokB
+	})
+}
+
+// sprim runs ONE primitive of a fresh NewStream(r, len) — the operations of the Stream machine that the interface{}
+// path does not exercise (Uint, Bool, Raw) plus Bytes and Kind — with the error kind.
+func sprim(op string, bs []byte) string {
+	return hx.Safe(func() string {
+		st := rlp.NewStream(bytes.NewReader(bs), uint64(len(bs)))
+		fail := func(err error) string {
+			k := errKind(err)
+			switch {
+			case strings.HasPrefix(err.Error(), "rlp: invalid boolean"):
+				k = "badBool"
+			case err.Error() == "rlp: uint overflow":
+				k = "uintOverflow"
+			}
+			return "err " + k
+		}
+		switch op {
+		case "uint":
+			v, err := st.Uint()
+			if err != nil {
+				return fail(err)
+			}
+			return fmt.Sprintf("ok %d", v)
+		case "bool":
+			v, err := st.Bool()
+			if err != nil {
+				return fail(err)
+			}
+			return fmt.Sprintf("ok %v", v)
+		case "bytes":
+			v, err := st.Bytes()
+			if err != nil {
+				return fail(err)
+			}
+			return "ok " + hx.Hex(v)
+		case "raw":
+			v, err := st.Raw()
+			if err != nil {
+				return fail(err)
+			}
+			return "ok " + hx.Hex(v)
+		case "kind":
+			k, n, err := st.Kind()
+			if err != nil {
+				return fail(err)
+			}
+			return fmt.Sprintf("ok %v %d", k, n)
+		}
+		return "bad-op"
+	})
+}
+
 func split(bs []byte) string {
 	return hx.Safe(func() string {
 		k, content, rest, err := rlp.Split(bs)
@@ -135,7 +243,7 @@ func main() {
 		// machine of the model (Aqv.Model.RlpStream); the length-5 layer of the thorough exhaustive scope is left to
 		// the `dec` line to keep the case file within bounds
 		if !(run.Thorough() && len(bs) == 5 && exhaustivePhase) {
-			run.Case("sdec "+hx.Hex(bs), s)
+			run.Case("sdec "+hx.Hex(bs), sdecTokens(bs))
 			run.Count("sdec")
 		}
 	}
@@ -286,6 +394,65 @@ func main() {
 			}
 			run.Case("enc "+render(it), "ok "+hx.Hex(e1))
 			doDec(e1)
+		}
+	}
+
+	// 3c. the primitives of the Stream machine on a fresh stream: every string up to length 3 over the alphabet, every
+	//     single byte, and encodings of integers / strings with mutations
+	prims := []string{"uint", "bool", "bytes", "raw", "kind"}
+	doPrim := func(bs []byte) {
+		run.Current("sprim " + hx.Hex(bs))
+		for _, op := range prims {
+			run.Case("sprim "+op+" "+hx.Hex(bs), sprim(op, bs))
+		}
+		run.Count("sprim")
+	}
+	var recP func(prefix []byte)
+	recP = func(prefix []byte) {
+		doPrim(prefix)
+		if len(prefix) == 3 {
+			return
+		}
+		for _, a := range alphabet {
+			recP(append(append([]byte{}, prefix...), a))
+		}
+	}
+	recP(nil)
+	for b := 0; b < 256; b++ {
+		doPrim([]byte{byte(b)})
+	}
+	r4 := rng.Fork(4)
+	nPrim := 1500
+	if run.Thorough() {
+		nPrim = 40000
+	}
+	for i := 0; i < nPrim; i++ {
+		var v interface{}
+		switch r4.Intn(3) {
+		case 0:
+			v = rU64(r4)
+		case 1:
+			v = rBytes(r4)
+		default:
+			v = genItem(r4, 2)
+		}
+		e, err := rlp.EncodeToBytes(v)
+		if err != nil {
+			continue
+		}
+		doPrim(e)
+		for k := 0; k < 3 && len(e) > 0; k++ {
+			m := append([]byte{}, e...)
+			pos := r4.Intn(len(m))
+			switch r4.Intn(3) {
+			case 0:
+				m[pos] = alphabet[r4.Intn(len(alphabet))]
+			case 1:
+				m[pos] ^= 1 << uint(r4.Intn(8))
+			default:
+				m = m[:pos]
+			}
+			doPrim(m)
 		}
 	}
 
